@@ -8,7 +8,8 @@
    (c) purity -- Gallina functions are pure by construction; the implementation is re-run on the
    same OptionParser and after other operations (driver modes `twice`, `history`). *)
 From Coq Require Import List Arith.
-From BpafLemmas Require Import Tac EvalEq Reach LoopLaws.
+From BpafModel Require Import Conv.
+From BpafLemmas Require Import Tac EvalEq Reach LoopLaws AbsSim AbsTotal ConvRefine ConvTotal.
 Import ListNotations.
 
 (* `remaining <= number of items` (and the item-state vector has the length of the item list)
@@ -50,3 +51,20 @@ Theorem C04_last_terminates_partial :
   fst (last_body ev s) = RFuel -> exists s', fst (ev s') = RFuel.
 Proof. exact last_body_fuel. Qed.
 Print Assumptions C04_last_terminates_partial.
+
+(* The whole flat fragment -- flags, arguments, positionals, construct!, optional / many / some /
+   count / last / fallback, arbitrarily nested -- is total on full-scope states: a value or an
+   error, never a panic outcome, never fuel exhaustion (through the token-list interpreter of
+   AbsSim.v, whose loops are shown never to exhaust the fuel the evaluator gives them). *)
+Theorem C04_flat_fragment_total :
+  forall env n p s l, flatp p = true -> Sim n s l ->
+  (exists v, fst (eval env p s) = ROk v) \/ (exists e, fst (eval env p s) = RErr e).
+Proof. exact flat_eval_total. Qed.
+Print Assumptions C04_flat_fragment_total.
+
+(* ... and so is running a conventional flat level on ANY argument vector *)
+Theorem C04_flat_level_total :
+  forall feat env items tail argv, flat_ok items tail ->
+  normal_outcome (run_inner feat env (compile_options (Level items tail)) None argv).
+Proof. exact flat_run_total. Qed.
+Print Assumptions C04_flat_level_total.
